@@ -43,6 +43,12 @@ class SymV(SOpaque):
     def pvc_getattr(self, I, attr):
         if attr == "name":
             return StrV(name_f(self.z))
+        if attr == "is_real":
+            # sympy's three-valued assumption: True / False / None (no assumption: the symbol is treated as complex)
+            from .sym import SBool
+            from .sympy_model import is_real_f, real_unknown_f
+
+            return MaybeV(z3.Not(real_unknown_f(self.z)), SBool(is_real_f(self.z)))
         return NotImplemented
 
     def pvc_str(self, I):
